@@ -79,6 +79,8 @@ type Path struct {
 	mapOrder    bool // explore map iteration orders
 	depth       int
 	bounds      map[string]int
+	decls       []string
+	unsatQueries []string
 }
 
 func (p *Path) note(s string) { p.notes[s]++ }
@@ -223,6 +225,7 @@ func (p *Path) newVar(label string, w int, kind string) (*Term, *Draw) {
 	p.nvars++
 	name := fmt.Sprintf("v%d_%s", p.nvars, sanitize(label))
 	p.solver.Declare(name, w)
+	p.decls = append(p.decls, fmt.Sprintf("(declare-const %s %s)", name, sortOf(w)))
 	d := &Draw{Label: label, Kind: kind, W: w, Var: name}
 	p.draws = append(p.draws, d)
 	return mkVar(name, w), d
@@ -284,6 +287,18 @@ func (p *Path) assert(cond value, label string) {
 		switch v {
 		case Unsat:
 			p.discharged++
+			if p.eng.RecordUnsat && len(p.unsatQueries) < 64 {
+				var sb strings.Builder
+				for _, d := range p.decls {
+					sb.WriteString(d)
+					sb.WriteString("\n")
+				}
+				for _, t := range p.pc {
+					sb.WriteString("(assert " + t.smt + ")\n")
+				}
+				sb.WriteString("(assert " + tNot(c).smt + ")\n(check-sat)\n")
+				p.unsatQueries = append(p.unsatQueries, sb.String())
+			}
 			p.assertPC(c) // harmless, may help later
 		case Sat:
 			p.violation(label, m, "negated assertion satisfiable: "+trunc(c.smt, 300))
